@@ -301,10 +301,11 @@ var c14Kind = registerKind("c14", func(in c14In) string {
 		// non-validating route (struct literal with no canonical profile)
 		var bare psatoken.IClaims
 		if p == P1 {
-			bare = &psatoken.P1Claims{SecurityLifeCycle: u16p(v)}
+			bare = &psatoken.P1Claims{}
 		} else {
-			bare = &psatoken.P2Claims{SecurityLifeCycle: u16p(v)}
+			bare = &psatoken.P2Claims{}
 		}
+		setIntField(bare, "SecurityLifeCycle", true, int64(v)) // (through reflection: the harness builds whatever the field's width)
 		if got, gerr := bare.GetSecurityLifeCycle(); (gerr == nil) != valid || (valid && got != v) {
 			return fmt.Sprintf("%s bare struct literal holding lifecycle 0x%04x: getter = %d, %v; want valid=%v", p, v, got, gerr, valid)
 		}
